@@ -40,3 +40,10 @@ Example C09_nonvacuous :
   to_usart (mkF true false true false 1365 21845 8 [85; 85; 85; 85; 85; 85; 85; 85]) = Val [14; 165; 85; 85; 85; 8; 85; 85; 85; 85; 85; 85; 85; 85] /\
   to_usart (mkF false true false true 0 0 2 [0; 0; 0; 0; 0; 0; 0; 0]) = Val [2; 64; 1; 1; 2; 2; 1; 1].
 Proof. repeat split; reflexivity. Qed.
+
+(* the extracted checkers accept the model's observations: for every well-formed frame (encode side) and every byte string (decode side) *)
+Require Import RP.Glue.Wire RP.Glue.StreamFrame RP.Lemmas.GlueLemmas.
+Theorem C09_checker_accepts_model_encode : forall f, wf_frame f = true -> ok_C09_USE (show_frame f) (run_USE (show_frame f)) = [].
+Proof. exact ok_C09_USE_accepts_model. Qed.
+Theorem C09_checker_accepts_model_decode : forall bs, bytes bs = true -> ok_C09_USD bs (run_USD bs) = [].
+Proof. exact ok_C09_USD_accepts_model. Qed.
